@@ -537,8 +537,17 @@ func (f *fakeRT) RoundTrip(ctx context.Context, addr net.Addr, req kafka.Request
 		results := make([]interface{}, len(msgs))
 		for i, sm := range msgs {
 			sub := sm.(*listoffsets.Request)
-			b, _ := sub.Broker(layout)
+			b, berr := sub.Broker(layout)
 			t, p := sub.Topics[0], sub.Topics[0].Partitions[0]
+			if berr != nil { // sendRequest: "return reject(err)": the sub-request is not sent
+				if _, known := f.c.topics[t.Topic][p.Partition]; known {
+					f.routeBad = true
+				}
+				f.nextErr++
+				results[i] = &fakeErr{id: f.nextErr}
+				f.outcomes = append(f.outcomes, "F/"+I(f.nextErr))
+				continue
+			}
 			if st, ok := f.c.topics[t.Topic][p.Partition]; ok {
 				if b.ID != st.leader {
 					f.routeBad = true
@@ -2436,6 +2445,7 @@ func main() {
 	tier2ConsumerOffsets(r, *count/2)
 	tier2Addresses(r, *count/20+1)
 	tierE2E(r, *count/100+3)
+	tierE2EFaults(r, *count/50+12)
 	tier3Seek(r, *count)
 	tier3ReadOffset(r, *count)
 	tier3ReadPartitions(r, *count/2)
